@@ -1,6 +1,6 @@
 /-
-C03, statements: a second non-vacuity example that uses EVERY constructor of the rendering relation `LinN` (and `LinProgram` with
-导入 statements): a 31-line program.  The derivation shows that the hypotheses of `parse_statements_roundtrip` are satisfiable on it;
+C03, statements: a second non-vacuity example that uses EVERY constructor of the rendering relations `LinN`, `LinSimple`, `LinX`
+(and `LinProgram` with 导入 statements): a 47-line program.  The derivation shows that the hypotheses of `parse_statements_roundtrip` are satisfiable on it;
 the tree is the one the derivation determines.  Independently, the parser model is evaluated on the tokens and the tree's shape
 and line numbers are compared with the expected ones.
 
@@ -33,8 +33,24 @@ and line numbers are compared with the expected ones.
  26  以 甲、乙 遍历 丙：
  27      每当 甲：
  28          { 甲 或 乙 } 且 甲 == 乙 * 丙
- 29  拦截 错：
- 30      输出 甲
+ 29  （名：甲、乙）
+ 30  （名：甲）得到 丙；（名）；
+ 31  令 名 为 （新建 名：甲）
+ 32  甲 之 名 = 甲 # 乙
+ 33  甲 # "键" = 甲 # { 乙 + 甲 }
+ 34  其 名 = 【甲，乙，
+ 35      丙】
+ 36  甲 为 【甲 = 乙，丙 = 甲】
+ 37  令 甲 为 【】
+ 38  令 乙 为 【=】
+ 39  以 甲（名：乙）、（名）得到 丙
+ 40  令 丙 为 以 甲（名）
+ 41  ；
+ 42  （名：
+ 43      甲、
+ 44      乙）
+ 45  拦截 错：
+ 46      输出 甲
 -/
 import ZnVerif.Properties.C03Stmt
 
@@ -42,7 +58,7 @@ namespace ZnVerif.Properties.C03.Example2
 open ZnVerif.Model ZnVerif.Model.Parser ZnVerif.Generated.Tokens ZnVerif.Generated.ParserTables
 open ZnVerif.Spec.StmtSyntax ZnVerif.Proofs.StmtRT
 
-/-- line `k` starts at character `100 * k`; the indentation of the 31 lines as in the header -/
+/-- line `k` starts at character `100 * k`; the indentation of the 47 lines as in the header -/
 def Y : Layout :=
   { lines :=
     #[{ indents := 0, startIdx := 0 }, { indents := 0, startIdx := 100 }, { indents := 1, startIdx := 200 },
@@ -55,8 +71,13 @@ def Y : Layout :=
       { indents := 1, startIdx := 2100 }, { indents := 0, startIdx := 2200 }, { indents := 1, startIdx := 2300 },
       { indents := 0, startIdx := 2400 }, { indents := 1, startIdx := 2500 }, { indents := 0, startIdx := 2600 },
       { indents := 1, startIdx := 2700 }, { indents := 2, startIdx := 2800 }, { indents := 0, startIdx := 2900 },
-      { indents := 1, startIdx := 3000 }],
-    eofIdx := 3100, ne := by decide }
+      { indents := 0, startIdx := 3000 }, { indents := 0, startIdx := 3100 }, { indents := 0, startIdx := 3200 },
+      { indents := 0, startIdx := 3300 }, { indents := 0, startIdx := 3400 }, { indents := 1, startIdx := 3500 },
+      { indents := 0, startIdx := 3600 }, { indents := 0, startIdx := 3700 }, { indents := 0, startIdx := 3800 },
+      { indents := 0, startIdx := 3900 }, { indents := 0, startIdx := 4000 }, { indents := 0, startIdx := 4100 },
+      { indents := 0, startIdx := 4200 }, { indents := 1, startIdx := 4300 }, { indents := 1, startIdx := 4400 },
+      { indents := 0, startIdx := 4500 }, { indents := 1, startIdx := 4600 }],
+    eofIdx := 4700, ne := by decide }
 
 /-- the `k`-th token of line `l` -/
 def T (ty l k : Nat) (lit : List Nat := []) : Token :=
@@ -104,7 +125,7 @@ def ifBlock := blk1 (retS 2 7 (jia 7 1) rfl (by decide +kernel)) (by decide +ker
 def elifBlock := blk1 (LinN.simple (Y := Y) 2 _ _ (.continueStmt (T cTypeContinueW 9 0) rfl)) (by decide +kernel)
 def throwS :=
   LinN.simple (Y := Y) 2 _ _ (.throwStmt (T cTypeThrowErrorW 11 0) (nm 11 1) (colon 11 2) (T cTypeExceptionT 11 6) _ _ rfl rfl rfl
-    (.cons (pause 11 4) _ [jia 11 3] _ _ (lid _ rfl) rfl (.one _ _ (lid (yi 11 5) rfl))) rfl (by decide +kernel))
+    (.cons (pause 11 4) _ [jia 11 3] _ _ (lid _ rfl) rfl rfl (.one _ _ (lid (yi 11 5) rfl))) rfl (by decide +kernel))
 def elseBlock := blk1 throwS (by decide +kernel)
 
 def branch :=
@@ -176,28 +197,180 @@ theorem u1 {e : Expr} {ts : List Token} (h : LinE Y 2 e ts) : LinE Y 1 e ts := .
 
 /-- `{ 甲 或 乙 } 且 甲 == 乙 * 丙` -/
 def bigExpr :=
-  u1 (LinE.and (Y := Y) (T cTypeLogicAndW 28 5) _ _ _ _ rfl
-    (u2 (u3 (u4 (u5 (u6 (LinE.brace (T cTypeStmtQuoteL 28 0) (T cTypeStmtQuoteR 28 4) _ _ rfl rfl
-      (LinE.or (T cTypeLogicOrW 28 2) _ _ [jia 28 1] [yi 28 3] rfl (lid _ rfl) (u2 (u3 (u4 (u5 (u6 (.id (yi 28 3) rfl)))))))))))))
-    (LinE.cmp (T cTypeEqualMark 28 7) _ _ [jia 28 6] _ (by decide) (u4 (u5 (u6 (.id (jia 28 6) rfl))))
-      (u4 (u5 (LinE.mul (T cTypeMultiply 28 9) _ _ [yi 28 8] [bing 28 10] (by decide) (u6 (.id (yi 28 8) rfl))
+  u1 (LinX.and (Y := Y) (cfg := true) (T cTypeLogicAndW 28 5) _ _ _ _ rfl
+    (u2 (u3 (u4 (u5 (u6 (LinX.brace (T cTypeStmtQuoteL 28 0) (T cTypeStmtQuoteR 28 4) _ _ rfl rfl
+      (LinX.or (T cTypeLogicOrW 28 2) _ _ [jia 28 1] [yi 28 3] rfl (lid _ rfl) (u2 (u3 (u4 (u5 (u6 (.id (yi 28 3) rfl)))))))))))))
+    (LinX.cmp (T cTypeEqualMark 28 7) _ _ [jia 28 6] _ (by decide) (u4 (u5 (u6 (.id (jia 28 6) rfl))))
+      (u4 (u5 (LinX.mul (T cTypeMultiply 28 9) _ _ [yi 28 8] [bing 28 10] (by decide) (u6 (.id (yi 28 8) rfl))
         (.id (bing 28 10) rfl))))))
 
 def whileS :=
   LinN.whileStmt (Y := Y) 1 (T cTypeWhileLoopW 27 0) (colon 27 2) _ _ _ _ rfl (lid (jia 27 1) rfl) rfl (by decide +kernel)
     (by decide +kernel) (by simp)
-    (blk1 (LinN.simple (Y := Y) 2 _ _ (.exprStmt _ _ bigExpr (by decide +kernel))) (by decide +kernel))
+    (blk1 (LinN.simple (Y := Y) 2 _ _ (.exprStmt _ _ bigExpr (by decide +kernel) (by decide +kernel))) (by decide +kernel))
 
 def iter2 :=
   LinN.iter2Stmt (Y := Y) 0 (T cTypeVarOneW 26 0) (jia 26 1) (pause 26 2) (yi 26 3) (T cTypeIteratorW 26 4) (colon 26 6) _ _ _ _
     rfl rfl rfl rfl rfl (lid (bing 26 5) rfl) rfl (by decide +kernel) (by decide +kernel) (by simp)
     (blk1 whileS (by decide +kernel))
 
--- lines 29–30: the program's handler
+-- ---- lines 29–44: calls, 新建, member chains, assignments, lists and dictionaries, method calls, `；`, commas, line breaks ------
+
+def lp (l k : Nat) : Token := T cTypeFuncQuoteL l k
+def rp (l k : Nat) : Token := T cTypeFuncQuoteR l k
+def cma (l k : Nat) : Token := T cTypeCommaSep l k
+def semi (l k : Nat) : Token := T cTypeStmtSep l k
+def eqm (l k : Nat) : Token := T cTypeAssignMark l k
+def lb (l k : Nat) : Token := T cTypeArrayQuoteL l k
+def rb (l k : Nat) : Token := T cTypeArrayQuoteR l k
+
+theorem idX {cfg : Bool} (t : Token) (h : t.type = cTypeIdentifier) : LinX Y cfg 7 (.expr (.id (Y.idOf t))) [t] := .id t h
+theorem lift51 {cfg : Bool} {e : Expr} {ts : List Token} (h : LinX Y cfg 5 (.expr e) ts) : LinX Y cfg 1 (.expr e) ts :=
+  .up 1 _ _ (by decide) (.up 2 _ _ (by decide) (.up 3 _ _ (by decide) (.up 4 _ _ (by decide) h)))
+theorem lift41 {cfg : Bool} {e : Expr} {ts : List Token} (h : LinX Y cfg 4 (.expr e) ts) : LinX Y cfg 1 (.expr e) ts :=
+  .up 1 _ _ (by decide) (.up 2 _ _ (by decide) (.up 3 _ _ (by decide) h))
+theorem lift61 {cfg : Bool} {e : Expr} {ts : List Token} (h : LinX Y cfg 6 (.expr e) ts) : LinX Y cfg 1 (.expr e) ts :=
+  lift51 (.up 5 _ _ (by decide) h)
+theorem lift75 {cfg : Bool} {e : Expr} {ts : List Token} (h : LinX Y cfg 7 (.expr e) ts) : LinX Y cfg 5 (.expr e) ts :=
+  .up 5 _ _ (by decide) (.up 6 _ _ (by decide) h)
+theorem lift7 {cfg : Bool} {e : Expr} {ts : List Token} (h : LinX Y cfg 7 (.expr e) ts) : LinX Y cfg 1 (.expr e) ts :=
+  lift51 (lift75 h)
+/-- one argument -/
+def arg1 (t : Token) (h : t.type = cTypeIdentifier) := LinX.argsOne (Y := Y) _ [t] (lift7 (idX t h))
+
+-- 29  （名：甲、乙）
+def call29 :=
+  LinX.call (Y := Y) (cfg := true) (lp 29 0) _ _ _ none rfl
+    (.fcallArgs (nm 29 1) (colon 29 2) (rp 29 6) _ _ rfl rfl rfl
+      (.argsCons (pause 29 4) _ [jia 29 3] _ _ (lift7 (idX (jia 29 3) rfl)) rfl rfl (arg1 (yi 29 5) rfl))) trivial
+def s29 := LinN.simple (Y := Y) 0 _ _ (.exprStmt _ _ (lift7 call29) (by decide +kernel) (by decide +kernel))
+
+-- 30  （名：甲）得到 丙；（名）；
+def call30a :=
+  LinX.call (Y := Y) (cfg := true) (lp 30 0) _ _ _ (some (T cTypeGetResultW 30 5, bing 30 6)) rfl
+    (.fcallArgs (nm 30 1) (colon 30 2) (rp 30 4) _ _ rfl rfl rfl (arg1 (jia 30 3) rfl)) ⟨rfl, rfl⟩
+def s30a := LinSimple.exprStmt (Y := Y) _ _ (lift7 call30a) (by decide +kernel) (by decide +kernel)
+def call30b := LinX.call (Y := Y) (cfg := true) (lp 30 8) _ _ _ none rfl (.fcall0 (nm 30 9) (rp 30 10) rfl rfl) trivial
+def s30b := LinSimple.exprStmt (Y := Y) _ _ (lift7 call30b) (by decide +kernel) (by decide +kernel)
+
+-- 31  令 名 为 （新建 名：甲）
+def new31 :=
+  LinX.new (Y := Y) (cfg := true) (lp 31 3) (T cTypeObjNewW 31 4) _ _ _ rfl rfl
+    (.fcallArgs (nm 31 5) (colon 31 6) (rp 31 8) _ _ rfl rfl rfl (arg1 (jia 31 7) rfl))
+def s31 :=
+  LinN.simple (Y := Y) 0 _ _ (.declStmt (T cTypeDeclareW 31 0) (T cTypeAssignW 31 2) _ [nm 31 1] _ _ rfl (.one _ rfl)
+    (by decide +kernel) (lift7 new31) (by decide +kernel))
+
+-- 32  甲 之 名 = 甲 # 乙
+def a32 := LinX.dot (Y := Y) (cfg := true) (T cTypeObjDotW 32 1) (nm 32 2) _ [jia 32 0] (by decide +kernel) rfl (idX (jia 32 0) rfl)
+def b32 := LinX.idxId (Y := Y) (cfg := true) (T cTypeMapHash 32 5) (yi 32 6) _ [jia 32 4] rfl rfl (idX (jia 32 4) rfl)
+def e32 := lift41 (LinX.assign (Y := Y) (cfg := true) (eqm 32 3) _ _ _ _ (by decide +kernel) rfl (lift75 a32) (lift75 b32))
+def s32 := LinN.simple (Y := Y) 0 _ _ (.exprStmt _ _ e32 (by decide +kernel) (by decide +kernel))
+
+-- 33  甲 # "键" = 甲 # { 乙 + 甲 }
+def a33 :=
+  LinX.idxStr (Y := Y) (cfg := true) (T cTypeMapHash 33 1) (T cTypeString 33 2 [0x952E]) _ [jia 33 0] rfl rfl (idX (jia 33 0) rfl)
+def sum33 :=
+  lift51 (LinX.add (Y := Y) (cfg := true) (T cTypePlus 33 8) _ _ [yi 33 7] [jia 33 9] (by decide +kernel) (lift75 (idX (yi 33 7) rfl))
+    (.up 6 _ _ (by decide) (idX (jia 33 9) rfl)))
+def b33 :=
+  LinX.idxExpr (Y := Y) (cfg := true) (T cTypeMapHash 33 5) (T cTypeStmtQuoteL 33 6) (T cTypeStmtQuoteR 33 10) _ [jia 33 4] _ _
+    rfl rfl rfl (idX (jia 33 4) rfl) sum33
+def e33 := lift41 (LinX.assign (Y := Y) (cfg := true) (eqm 33 3) _ _ _ _ (by decide +kernel) rfl (lift75 a33) (lift75 b33))
+def s33 := LinN.simple (Y := Y) 0 _ _ (.exprStmt _ _ e33 (by decide +kernel) (by decide +kernel))
+
+-- 34  其 名 = 【甲，乙，
+-- 35      丙】
+/-- an item followed by its comma -/
+def itemC (t c : Token) (h : t.type = cTypeIdentifier) (hc : c.type = cTypeCommaSep) :=
+  lift61 (LinX.commaAfter (Y := Y) (cfg := false) c _ [t] hc (idX t h))
+def arr34 :=
+  LinX.arr (Y := Y) (cfg := true) (lb 34 3) (rb 35 1) _ _ _ _ rfl rfl (itemC (jia 34 4) (cma 34 5) rfl rfl)
+    (.itemsCons _ _ _ _ (itemC (yi 34 6) (cma 34 7) rfl rfl) (.itemsCons _ _ _ _ (lift7 (idX (bing 35 0) rfl)) .itemsNil))
+def e34 :=
+  lift41 (LinX.assign (Y := Y) (cfg := true) (eqm 34 2) _ _ _ _ (by decide +kernel) rfl
+    (lift75 (LinX.this (T cTypeObjThisW 34 0) (nm 34 1) rfl rfl)) (lift75 arr34))
+def s34 := LinN.simple (Y := Y) 0 _ _ (.exprStmt _ _ e34 (by decide +kernel) (by decide +kernel))
+
+-- 36  甲 为 【甲 = 乙，丙 = 甲】
+def hm36 :=
+  LinX.hm (Y := Y) (cfg := true) (lb 36 2) (eqm 36 4) (rb 36 10) _ [jia 36 3] _ _ _ _ rfl rfl rfl (lift7 (idX (jia 36 3) rfl))
+    (itemC (yi 36 5) (cma 36 6) rfl rfl)
+    (.kvsCons (eqm 36 8) _ [bing 36 7] _ [jia 36 9] _ _ rfl (lift7 (idX (bing 36 7) rfl)) (lift7 (idX (jia 36 9) rfl)) .kvsNil)
+def e36 :=
+  lift41 (LinX.assign (Y := Y) (cfg := true) (T cTypeAssignW 36 1) _ _ _ _ (by decide +kernel) rfl (lift75 (idX (jia 36 0) rfl))
+    (lift75 hm36))
+def s36 := LinN.simple (Y := Y) 0 _ _ (.exprStmt _ _ e36 (by decide +kernel) (by decide +kernel))
+
+-- 37  令 甲 为 【】        38  令 乙 为 【=】
+def s37 :=
+  LinN.simple (Y := Y) 0 _ _ (.declStmt (T cTypeDeclareW 37 0) (T cTypeAssignW 37 2) _ [jia 37 1] _ _ rfl (.one _ rfl)
+    (by decide +kernel) (lift7 (LinX.arrEmpty (lb 37 3) (rb 37 4) rfl rfl)) (by decide +kernel))
+def s38 :=
+  LinN.simple (Y := Y) 0 _ _ (.declStmt (T cTypeDeclareW 38 0) (T cTypeAssignW 38 2) _ [yi 38 1] _ _ rfl (.one _ rfl)
+    (by decide +kernel) (lift7 (LinX.hmEmpty (lb 38 3) (eqm 38 4) (rb 38 5) rfl rfl rfl)) (by decide +kernel))
+
+-- 39  以 甲（名：乙）、（名）得到 丙
+def s39 :=
+  LinN.simple (Y := Y) 0 _ _ (.mcallStmt (T cTypeVarOneW 39 0) (lp 39 2) _ [jia 39 1] _ _ _ _ _
+    (some (T cTypeGetResultW 39 11, bing 39 12)) rfl (lid (jia 39 1) rfl) rfl
+    (.fcallArgs (nm 39 3) (colon 39 4) (rp 39 6) _ _ rfl rfl rfl (arg1 (yi 39 5) rfl))
+    (.chainCons (pause 39 7) (lp 39 8) _ _ _ _ _ rfl rfl (.fcall0 (nm 39 9) (rp 39 10) rfl rfl) .chainNil) ⟨rfl, rfl⟩
+    (by decide +kernel))
+
+-- 40  令 丙 为 以 甲（名）
+def mc40 :=
+  LinX.mcall (Y := Y) (cfg := true) (T cTypeVarOneW 40 3) (lp 40 5) _ [jia 40 4] _ _ _ _ _ none rfl (lid (jia 40 4) rfl) rfl
+    (.fcall0 (nm 40 6) (rp 40 7) rfl rfl) .chainNil trivial
+def s40 :=
+  LinN.simple (Y := Y) 0 _ _ (.declStmt (T cTypeDeclareW 40 0) (T cTypeAssignW 40 2) _ [bing 40 1] _ _ rfl (.one _ rfl)
+    (by decide +kernel) (lift7 mc40) (by decide +kernel))
+
+-- 42  （名：
+-- 43      甲、
+-- 44      乙）
+def call42 :=
+  LinX.call (Y := Y) (cfg := true) (lp 42 0) _ _ _ none rfl
+    (.fcallArgs (nm 42 1) (colon 42 2) (rp 44 1) _ _ rfl rfl rfl
+      (.argsCons (pause 43 1) _ [jia 43 0] _ _ (lift7 (idX (jia 43 0) rfl)) rfl rfl (arg1 (yi 44 0) rfl))) trivial
+def s42 := LinN.simple (Y := Y) 0 _ _ (.exprStmt _ _ (lift7 call42) (by decide +kernel) (by decide +kernel))
+
+/-- the statements of lines 29–44 -/
+def stmts2 :=
+  LinN.blockCons (Y := Y) 0 _ _ _ _ s29 (by decide +kernel)
+    (.blockConsSemi 0 _ _ _ _ s30a (by decide +kernel)
+      (.blockEmpty 0 (semi 30 7) _ _ rfl (by decide +kernel)
+        (.blockConsSemi 0 _ _ _ _ s30b (by decide +kernel)
+          (.blockEmpty 0 (semi 30 11) _ _ rfl (by decide +kernel)
+            (.blockCons 0 _ _ _ _ s31 (by decide +kernel)
+              (.blockCons 0 _ _ _ _ s32 (by decide +kernel)
+                (.blockCons 0 _ _ _ _ s33 (by decide +kernel)
+                  (.blockCons 0 _ _ _ _ s34 (by decide +kernel)
+                    (.blockCons 0 _ _ _ _ s36 (by decide +kernel)
+                      (.blockCons 0 _ _ _ _ s37 (by decide +kernel)
+                        (.blockCons 0 _ _ _ _ s38 (by decide +kernel)
+                          (.blockCons 0 _ _ _ _ s39 (by decide +kernel)
+                            (.blockCons 0 _ _ _ _ s40 (by decide +kernel)
+                              (.blockEmpty 0 (semi 41 0) _ _ rfl (by decide +kernel)
+                                (.blockCons 0 _ _ _ _ s42 (by decide +kernel) (.blockNil 0) (Or.inl rfl)))
+                              (Or.inr (by decide +kernel)))
+                            (Or.inr (by decide +kernel)))
+                          (Or.inr (by decide +kernel)))
+                        (Or.inr (by decide +kernel)))
+                      (Or.inr (by decide +kernel)))
+                    (Or.inr (by decide +kernel)))
+                  (Or.inr (by decide +kernel)))
+                (Or.inr (by decide +kernel)))
+              (Or.inr (by decide +kernel))))
+          (by simp) rfl))
+      (by simp) rfl)
+    (Or.inr (by decide +kernel))
+
+-- lines 45–46: the program's handler
 def handler2 :=
-  LinN.handCons (Y := Y) 0 (T cTypeCatchErrorW 29 0) (nm 29 1) (colon 29 2) _ _ _ _ rfl rfl rfl (by decide +kernel)
+  LinN.handCons (Y := Y) 0 (T cTypeCatchErrorW 45 0) (nm 45 1) (colon 45 2) _ _ _ _ rfl rfl rfl (by decide +kernel)
     (by decide +kernel) (by decide +kernel) (by simp)
-    (blk1 (retS 1 30 (jia 30 1) rfl (by decide +kernel)) (by decide +kernel)) (.handNil 0) (Or.inl rfl)
+    (blk1 (retS 1 46 (jia 46 1) rfl (by decide +kernel)) (by decide +kernel)) (.handNil 0) (Or.inl rfl)
 
 def stmts :=
   LinN.blockCons (Y := Y) 0 _ _ _ _ declBlock (by decide +kernel)
@@ -206,7 +379,7 @@ def stmts :=
         (.blockCons 0 _ _ _ _ ctorS (by decide +kernel)
           (.blockCons 0 _ _ _ _ iter0 (by decide +kernel)
             (.blockCons 0 _ _ _ _ iter1 (by decide +kernel)
-              (.blockCons 0 _ _ _ _ iter2 (by decide +kernel) (.blockNil 0) (Or.inl rfl))
+              (.blockCons 0 _ _ _ _ iter2 (by decide +kernel) stmts2 (Or.inr (by decide +kernel)))
               (Or.inr (by decide +kernel)))
             (Or.inr (by decide +kernel)))
           (Or.inr (by decide +kernel)))
@@ -214,9 +387,11 @@ def stmts :=
       (Or.inr (by decide +kernel)))
     (Or.inr (by decide +kernel))
 
-def progBody := LinN.execPlain (Y := Y) 0 _ _ _ _ stmts handler2 (Or.inr (by decide +kernel)) (by simp)
+def progBody :=
+  LinN.execPlain (Y := Y) 0 _ _ _ _ stmts handler2 (Or.inr (by decide +kernel))
+    (fun h => absurd (List.append_eq_nil_iff.mp h).2 (List.cons_ne_nil _ _))
 
-/-- the tokens of the 31 lines -/
+/-- the tokens of the 47 lines -/
 def tokens : List Token :=
   l0 ++ [] ++
   ((T cTypeDeclareW 1 0 :: colon 1 1 :: jia 2 0 :: T cTypeAssignW 2 1 :: yi 2 2 ::
@@ -236,7 +411,25 @@ def tokens : List Token :=
       T cTypeWhileLoopW 27 0 :: jia 27 1 :: colon 27 2 ::
       T cTypeStmtQuoteL 28 0 :: jia 28 1 :: T cTypeLogicOrW 28 2 :: yi 28 3 :: T cTypeStmtQuoteR 28 4 :: T cTypeLogicAndW 28 5 ::
       jia 28 6 :: T cTypeEqualMark 28 7 :: yi 28 8 :: T cTypeMultiply 28 9 :: [bing 28 10]) ++
-   (T cTypeCatchErrorW 29 0 :: nm 29 1 :: colon 29 2 :: ret 30 :: [jia 30 1]))
+   (lp 29 0 :: nm 29 1 :: colon 29 2 :: jia 29 3 :: pause 29 4 :: yi 29 5 :: rp 29 6 ::
+      lp 30 0 :: nm 30 1 :: colon 30 2 :: jia 30 3 :: rp 30 4 :: T cTypeGetResultW 30 5 :: bing 30 6 :: semi 30 7 ::
+      lp 30 8 :: nm 30 9 :: rp 30 10 :: semi 30 11 ::
+      T cTypeDeclareW 31 0 :: nm 31 1 :: T cTypeAssignW 31 2 :: lp 31 3 :: T cTypeObjNewW 31 4 :: nm 31 5 :: colon 31 6 ::
+      jia 31 7 :: rp 31 8 ::
+      jia 32 0 :: T cTypeObjDotW 32 1 :: nm 32 2 :: eqm 32 3 :: jia 32 4 :: T cTypeMapHash 32 5 :: yi 32 6 ::
+      jia 33 0 :: T cTypeMapHash 33 1 :: T cTypeString 33 2 [0x952E] :: eqm 33 3 :: jia 33 4 :: T cTypeMapHash 33 5 ::
+      T cTypeStmtQuoteL 33 6 :: yi 33 7 :: T cTypePlus 33 8 :: jia 33 9 :: T cTypeStmtQuoteR 33 10 ::
+      T cTypeObjThisW 34 0 :: nm 34 1 :: eqm 34 2 :: lb 34 3 :: jia 34 4 :: cma 34 5 :: yi 34 6 :: cma 34 7 :: bing 35 0 :: rb 35 1 ::
+      jia 36 0 :: T cTypeAssignW 36 1 :: lb 36 2 :: jia 36 3 :: eqm 36 4 :: yi 36 5 :: cma 36 6 :: bing 36 7 :: eqm 36 8 ::
+      jia 36 9 :: rb 36 10 ::
+      T cTypeDeclareW 37 0 :: jia 37 1 :: T cTypeAssignW 37 2 :: lb 37 3 :: rb 37 4 ::
+      T cTypeDeclareW 38 0 :: yi 38 1 :: T cTypeAssignW 38 2 :: lb 38 3 :: eqm 38 4 :: rb 38 5 ::
+      T cTypeVarOneW 39 0 :: jia 39 1 :: lp 39 2 :: nm 39 3 :: colon 39 4 :: yi 39 5 :: rp 39 6 :: pause 39 7 :: lp 39 8 ::
+      nm 39 9 :: rp 39 10 :: T cTypeGetResultW 39 11 :: bing 39 12 ::
+      T cTypeDeclareW 40 0 :: bing 40 1 :: T cTypeAssignW 40 2 :: T cTypeVarOneW 40 3 :: jia 40 4 :: lp 40 5 :: nm 40 6 :: rp 40 7 ::
+      semi 41 0 ::
+      lp 42 0 :: nm 42 1 :: colon 42 2 :: jia 43 0 :: pause 43 1 :: yi 44 0 :: [rp 44 1]) ++
+   (T cTypeCatchErrorW 45 0 :: nm 45 1 :: colon 45 2 :: ret 46 :: [jia 46 1]))
 
 /-- the hypotheses of `parse_statements_roundtrip` are satisfiable on a program that uses every statement form -/
 theorem rendered : ∃ p, LinProgram Y p tokens := ⟨_, LinProgram.importsBody 0 _ _ _ _ (by simp [l0]) imports progBody⟩
@@ -244,9 +437,9 @@ theorem rendered : ∃ p, LinProgram Y p tokens := ⟨_, LinProgram.importsBody 
 theorem inOrder : Y.InOrder tokens := by decide +kernel
 
 /-- … so the theorem applies, to the pinned parser (`Variant.legacy`) and to the repaired one alike -/
-theorem parsed : ∃ p, ∀ v, parseLaidOut v Y 2000 tokens = .tree p := by
+theorem parsed : ∃ p, ∀ v, parseLaidOut v Y 4000 tokens = .tree p := by
   obtain ⟨p, hp⟩ := rendered
-  exact ⟨p, fun v => parse_statements_roundtrip v hp inOrder 2000 (by decide +kernel)⟩
+  exact ⟨p, fun v => parse_statements_roundtrip v hp inOrder 4000 (by decide +kernel)⟩
 
 /-- independently of the theorem, by evaluation of the parser model: the shape of the tree and every line number -/
 def expected : Outcome → Bool
@@ -265,10 +458,25 @@ def expected : Outcome → Bool
          .iterate 26 (.id ⟨26, _⟩) [⟨26, _⟩, ⟨26, _⟩] (some
            [.while 27 (.id ⟨27, _⟩) (some
              [.expr (.logic 28 2 (.logic 28 1 (.id ⟨28, _⟩) (.id ⟨28, _⟩))
-                (.logic 28 4 (.id ⟨28, _⟩) (.arith 28 14 (.id ⟨28, _⟩) (.id ⟨28, _⟩))))])])])
-        [(some ⟨29, _⟩, some [.ret 30 (.id ⟨30, _⟩)])])⟩ => true
+                (.logic 28 4 (.id ⟨28, _⟩) (.arith 28 14 (.id ⟨28, _⟩) (.id ⟨28, _⟩))))])]),
+         .expr (.call 29 (some ⟨29, _⟩) [.id ⟨29, _⟩, .id ⟨29, _⟩] none),
+         .expr (.call 30 (some ⟨30, _⟩) [.id ⟨30, _⟩] (some ⟨30, _⟩)), .empty 0,
+         .expr (.call 30 (some ⟨30, _⟩) [] none), .empty 0,
+         .varDecl 31 [(1, [⟨31, _⟩], .new 31 (some ⟨31, _⟩) [.id ⟨31, _⟩])],
+         .expr (.assign 32 (.member 0 1 (.id ⟨32, _⟩) 1 (some ⟨32, _⟩) .nil) (.member 32 1 (.id ⟨32, _⟩) 2 none (.id ⟨32, _⟩))),
+         .expr (.assign 33 (.member 33 1 (.id ⟨33, _⟩) 2 none (.str 33 _))
+           (.member 33 1 (.id ⟨33, _⟩) 2 none (.arith 33 12 (.id ⟨33, _⟩) (.id ⟨33, _⟩)))),
+         .expr (.assign 34 (.member 0 2 .nil 1 (some ⟨34, _⟩) .nil) (.arr 34 [.id ⟨34, _⟩, .id ⟨34, _⟩, .id ⟨35, _⟩])),
+         .expr (.assign 36 (.id ⟨36, _⟩) (.hm 36 [(.id ⟨36, _⟩, .id ⟨36, _⟩), (.id ⟨36, _⟩, .id ⟨36, _⟩)])),
+         .varDecl 37 [(1, [⟨37, _⟩], .arr 37 [])],
+         .varDecl 38 [(1, [⟨38, _⟩], .hm 38 [])],
+         .expr (.mcall 39 (.id ⟨39, _⟩) [.call 0 (some ⟨39, _⟩) [.id ⟨39, _⟩] none, .call 0 (some ⟨39, _⟩) [] none] (some ⟨39, _⟩)),
+         .varDecl 40 [(1, [⟨40, _⟩], .mcall 40 (.id ⟨40, _⟩) [.call 0 (some ⟨40, _⟩) [] none] none)],
+         .empty 0,
+         .expr (.call 42 (some ⟨42, _⟩) [.id ⟨43, _⟩, .id ⟨44, _⟩] none)])
+        [(some ⟨45, _⟩, some [.ret 46 (.id ⟨46, _⟩)])])⟩ => true
     | _ => false
 
-theorem evaluated : expected (parseLaidOut Variant.fixed Y 2000 tokens) = true := by decide +kernel
+theorem evaluated : expected (parseLaidOut Variant.fixed Y 4000 tokens) = true := by decide +kernel
 
 end ZnVerif.Properties.C03.Example2
